@@ -196,8 +196,10 @@ def obligations(chk, prop='C17'):
             # stripping an anchor off a regex text: whether the text has it is a free Boolean per definition
             p_ = pattern_of(ex_, a[0])
             ch = ex_.materialize(a[1])
-            anchor = {'strip_prefix': "'^'", 'strip_suffix': "'$'"}[info['method']]
-            if p_ is None or not (isinstance(ch, Obj) and ch.kind == 'char' and ch.text == anchor):
+            anchor = {'strip_prefix': '^', 'strip_suffix': '$'}[info['method']]
+            is_anchor = (isinstance(ch, Obj) and ch.kind == 'char' and ch.text == "'%s'" % anchor) or (
+                z3.is_expr(ch) and z3.is_bv_value(z3.simplify(ch)) and z3.simplify(ch).as_long() == ord(anchor))       # a char constant
+            if p_ is None or not is_anchor:
                 raise Inconclusive('%s(%r, %r)' % (info['method'], p_, ch))
             which = 'lead' if info['method'] == 'strip_prefix' else 'trail'
             if p_.d[which] or not ex_.branch(z3.Bool('regex-text(%d)-%s' % (p_.d['d'], 'starts-with-^' if which == 'lead' else 'ends-with-$'))):
